@@ -328,6 +328,7 @@ func RunBatch(sc Scenario, tier string) int {
 	knownSeen := map[string]int{}
 	var knownOrder []string
 	violations := 0
+	unreproducible := 0
 	reported := map[string]bool{}
 	for _, rec := range all {
 		v := rec.Outcome.Viol
@@ -354,8 +355,12 @@ func RunBatch(sc Scenario, tier string) int {
 		// Replay in a fresh process must reproduce the same oracle failure.
 		code, out := ReplayInFreshProcess(path)
 		if code != 1 || !strings.Contains(out, "oracle="+v.Oracle+" ") {
-			fmt.Printf("grolsim: HARNESS FAILURE: replay of %s did not reproduce (exit %d)\n%s\n", path, code, tail(out, 2000))
-			return 2
+			// never report what does not replay; keep going, other violations may be solid
+			fmt.Printf("grolsim: NOT REPORTED: replay of %s did not reproduce (exit %d): %s\n", path, code, oneLine(tail(out, 300), 300))
+			unreproducible++
+			violations--
+			delete(reported, v.Sig)
+			continue
 		}
 		fmt.Printf("violation detail: run=%d oracle=%s sig=%s\n  %s\n", rec.Run, v.Oracle, v.Sig, oneLine(v.Detail, 600))
 		fmt.Printf("VIOLATION property=%s replay=%s\n", sc.ID(), path)
@@ -368,6 +373,10 @@ func RunBatch(sc Scenario, tier string) int {
 	if err := writeEvidence(sc, tier, seed, total, b, K, time.Since(start), violations, knownSeen); err != nil {
 		fmt.Printf("grolsim: HARNESS FAILURE: evidence: %v\n", err)
 		return 2
+	}
+	if exit == 0 && unreproducible > 0 {
+		fmt.Printf("grolsim: HARNESS FAILURE: %d violation(s) did not reproduce on replay and none did\n", unreproducible)
+		exit = 2
 	}
 	fmt.Printf("grolsim: property=%s completed_runs=%d/%d violations=%d known_findings_seen=%d wall=%.1fs\n",
 		sc.ID(), total.Runs, b.Runs, violations, len(knownSeen), time.Since(start).Seconds())
